@@ -146,10 +146,38 @@ def trace_of(events):
     return tuple(out)
 
 
+def new_coder(repo, it, cls):
+    """The coder object as its constructor leaves it: cls.__init__ folded with its defaults (collaborators that are not part of the
+    walk are stubs).  A constructor that cannot be folded to one object leaves a bare object (attributes then read as unknown)."""
+    init = repo.method(cls, '__init__', required=False)
+    if init is None:
+        return Obj(cls, {})
+    try:
+        nd = len(init.defaults)
+        loc = {'self': Obj(cls, {})}
+        for i, p in enumerate(init.params[1:], start=1):
+            di = i - (len(init.params) - nd)
+            loc[p] = ast.literal_eval(init.defaults[di]) if di >= 0 else None
+        res = InitInterp(repo, cls).run_function(init, lambda: dict(loc), self_class=cls)
+        ok = [r for r in res if r.ok]
+        if len(ok) >= 1:
+            return ok[0].locals['self']
+    except (AnalysisError, ValueError):
+        pass
+    return Obj(cls, {})
+
+
+class InitInterp(Interp):
+    def on_call(self, text, callee, args, kwargs, node, frame):
+        if text in ('SectionConfigurer', 'CompiledTemplateManager') or text.startswith('log.'):
+            return Obj(text + 'Stub', {}) if not text.startswith('log.') else None
+        return self.NOT_HANDLED
+
+
 def run_plain(repo, members, coder='Decoder', state_extra=None):
     fi = repo.method(coder, 'process_members')
     it = NoQuery(repo, coder)
-    res = it.run_function(fi, lambda: {'self': Obj(coder, {}), 'state': _mk_state(repo, it, 'CoderState', state_extra),
+    res = it.run_function(fi, lambda: {'self': new_coder(repo, it, coder), 'state': _mk_state(repo, it, 'CoderState', state_extra),
                                        'bit_operator': Top('b'), 'members': list(members)}, self_class=coder)
     return res
 
@@ -163,8 +191,22 @@ def run_compile(repo, members):
     def mk():
         root = Obj('CompiledTemplate', {'statements': []})
         st = make_state(repo, it, {'block_stack': [root], 'decoded_values': Sym('VALUES')}, cls='CompilerState')
+        # whatever else CompilerState.__init__ sets up (beyond the registers of CoderState and the block stack) is taken from its fold
+        cinit = repo.own_method('CompilerState', '__init__', required=False) if hasattr(repo, 'own_method') else None
+        if cinit is not None:
+            try:
+                tg = Obj('TableGroupStub', {'key': Sym('TGKEY')})
+                res0 = InitInterp(repo, 'CompilerState').run_function(
+                    cinit, lambda: {'self': Obj('CompilerState', {}), cinit.params[1]: tg, cinit.params[2]: Obj('BufrTemplateStub', {})}, self_class='CompilerState')
+                ok0 = [r for r in res0 if r.ok]
+                if ok0:
+                    for k, v in ok0[0].locals['self'].fields.items():
+                        if k not in st.fields:
+                            st.fields[k] = v
+            except (AnalysisError, IndexError, TypeError):
+                pass
         box.append(root)
-        return {'self': Obj('TemplateCompiler', {}), 'state': st, 'bit_operator': None, 'members': list(members)}
+        return {'self': new_coder(repo, it, 'TemplateCompiler'), 'state': st, 'bit_operator': None, 'members': list(members)}
     res = it.run_function(fi, mk, self_class='TemplateCompiler')
     out = []
     for r, root in zip(res, box):
@@ -175,7 +217,7 @@ def run_compile(repo, members):
 def run_replay(repo, statements, coder='Decoder', state_extra=None):
     fi = repo.func('templatecompiler', 'process_statements')
     it = NoQuery(repo, coder)
-    res = it.run_function(fi, lambda: {'coder': Obj(coder, {}), 'state': _mk_state(repo, it, 'CoderState', state_extra),
+    res = it.run_function(fi, lambda: {'coder': new_coder(repo, it, coder), 'state': _mk_state(repo, it, 'CoderState', state_extra),
                                        'bit_operator': Top('b'), 'statements': statements}, self_class=coder)
     return res
 
@@ -258,6 +300,17 @@ def curated_templates():
     for fid in (31011, 31012, 31000, 31002):
         t['delayed replication counted by %06d' % fid] = [E(), Obj('DelayedReplicationDescriptor', {
             'id': 102000, 'members': [E(), E(8002, 'CODE TABLE')], 'factor': element(fid, unit='NUMERIC')}), E()]
+    # the same Table D sequence met at several places of one template, under different operator regimes: what is recorded for one
+    # occurrence must not be reused for another (a compiler that memoises sequences must key the memo by every register it resolves)
+    regimes = {
+        '201': ([OP(201130)], [OP(201000)]), '202': ([OP(202129)], [OP(202000)]), '207': ([OP(207002)], [OP(207000)]), '208': ([OP(208003)], [OP(208000)]),
+        '204': ([OP(204007), element(31021, 'CODE TABLE')], [OP(204000)]), '203': ([OP(203012), E(), OP(203255)], [OP(203000)]),
+        '206': ([OP(206008)], []), '221': ([OP(221002)], []),
+    }
+    for k, (open_, close) in sorted(regimes.items()):
+        t['sequence repeated before, under and after %s' % k] = [SEQ(E(), S())] + open_ + [SEQ(E(), S())] + close + [SEQ(E(), S())]
+    t['sequence repeated inside and outside a replication'] = [SEQ(E(), S()), FIX(2, OP(201130), SEQ(E(), S()), OP(201000)), DEL(SEQ(E(), S()))]
+    t['sequence repeated around a bitmap'] = [SEQ(E(), S()), OP(222000), OP(236000), BITS(), Q(), Q(), SEQ(E(), S()), OP(223000), OP(237000), OP(223255), SEQ(E(), S())]
     return t
 
 
@@ -534,28 +587,20 @@ def rule_r4(repo):
     if not isinstance(load_funcs, ast.Dict):
         raise AnalysisError('STATEMENT_LOAD_FUNCS is not a dict literal')
     keys = set(k.value for k in load_funcs.keys if isinstance(k, ast.Constant))
-    # statement classes the compiler instantiates
-    m = repo.module('templatecompiler')
-    stmt_classes = set(c for c in m.classes if repo.is_subclass(c, 'Statement'))
-    inst = set()
-    for f in repo.all_funcs():
-        if f.module.name != 'templatecompiler':
-            continue
-        for c in effects(f).calls:
-            if isinstance(c.func, ast.Name) and c.func.id in stmt_classes:
-                inst.add(c.func.id)
-    inst -= {'CompiledTemplate'}
-    rr.instance('statement classes instantiated %s, loaders %s' % (sorted(inst), sorted(keys)))
-    if inst - keys:
-        rr.fail('loader:missing', 'pybufrkit/templatecompiler.py', 'statement class(es) %s can be recorded but have no entry in STATEMENT_LOAD_FUNCS' % sorted(inst - keys))
+    # (which statement classes need a loader is decided from the statements the compiler actually records for the curated family,
+    # below: a class that is only instantiated as a scratch container never reaches a compiled template)
     # fold: compile curated templates, serialise each statement, load it back, compare
     seen = set()
+    recorded = set()
     n = 0
     for name, members in sorted(curated_templates().items()):
         for r, stmts in run_compile(repo, members):
             if not r.ok:
                 continue
             for s in _flatten(stmts):
+                if not isinstance(s, Obj):
+                    raise AnalysisError('template "%s" records %r, not a statement object' % (name, s))
+                recorded.add(s.cls)
                 k0 = stmt_key(s)
                 if k0 in seen or s.cls == 'Loop':
                     continue
@@ -591,6 +636,9 @@ def rule_r4(repo):
                         key = 'json:%s' % s.fields.get('method_name')
                         msg = 'statement %s is loaded back as %s' % (_fmt(k0), _fmt(k1))
                     rr.fail(key, lfi.where, msg, witness={'statement': _fmt(k0)})
+    rr.instance('statement classes recorded %s, loaders %s' % (sorted(recorded), sorted(keys)))
+    if recorded - keys:
+        rr.fail('loader:missing', 'pybufrkit/templatecompiler.py', 'statement class(es) %s are recorded in compiled templates but have no entry in STATEMENT_LOAD_FUNCS' % sorted(recorded - keys))
     rr.instance('%d distinct recorded statements serialised and loaded back' % n)
     rr.extra = {'statements_folded': n}
     rr.require_floor(2)
